@@ -5,7 +5,8 @@
    replay_events(parent) returned; handoff_gen chk bf: chk = a caller-given summary_artifact_id is
    tested for existence, bf = the bundle is written before the child is created; (false,false) = the
    code as found (handoff_unfixed), (true,true) = the repaired code (handoff_view)). *)
-From RipV Require Import Base.Prelude Model.Frames Model.Log Proofs.LogProofs Model.Lineage Proofs.LineageProofs.
+From RipV Require Import Base.Prelude Base.Fs Model.Frames Model.Log Proofs.LogProofs Model.Lineage Proofs.LineageProofs
+  Model.ArtGuard Proofs.ArtGuardProofs Gen.HandoffGuard.
 
 (* ---- no frame is added to the source thread - or to any stream other than the fresh child's -
    by a successful OR failing branch / handoff, for every log, view, selector, summary class *)
@@ -207,6 +208,78 @@ Theorem c10_handoff_unchecked_artifact_unfixed_refuted :
     /\ exists c e cut om, In (handoff_frame c e parent cut om (Some a) false) l'.
 Proof. exact handoff_unchecked_artifact_refuted. Qed.
 Print Assumptions c10_handoff_unchecked_artifact_unfixed_refuted.
+
+(* ---- a CALLER-SUPPLIED summary_artifact_id, every shape of id x every state of the artifact store ----
+   Model/ArtGuard.v: the guard artifact_exists as a predicate over a file-system model (a path is a regular file / a
+   directory / absent); `resolve f base id` = stat(<blobs>.join(id)): PathBuf::join + the kernel's path walk (empty
+   and "." segments, "..", a segment after a regular file, a missing name, NAME_MAX, PATH_MAX, NUL);
+   guard_sound g = g is `is_file` with or without the non-empty test.  For EVERY id (empty, ".", "..", path-like,
+   absolute, a directory name, a blob name, with NUL, of any length) and EVERY file system: *)
+Theorem c10_artifact_guard_resolves : forall g f base id,
+  guard_sound g = true -> guard_eval g f base id = true ->
+  exists p c, resolve f base id = WAt p (File c) /\ lookup f p = Some (File c) /\ read_back f base id = Some c
+              /\ is_dir_at f base id = false.
+Proof. exact guard_sound_resolves. Qed.
+Print Assumptions c10_artifact_guard_resolves.
+
+Theorem c10_artifact_guard_rejects_directories_and_absent : forall g f base id,
+  (guard_sound g = true -> is_dir_at f base id = true -> guard_eval g f base id = false)
+  /\ (exists_at f base id = false -> guard_eval g f base id = false).
+Proof. exact (fun g f base id => conj (guard_sound_rejects_dir g f base id) (guard_rejects_absent g f base id)). Qed.
+Print Assumptions c10_artifact_guard_rejects_directories_and_absent.
+
+(* the handoff over the file system (handoff_fs g = Lineage's repaired handoff whose artifact store holds the
+   caller's id exactly when guard g lets it pass): an accepted handoff appends [created; lineage], the lineage frame
+   records the caller's id, and the id names a regular file of the file system whose bytes read back *)
+Theorem c10_handoff_caller_artifact_resolves : forall g f base view l parent sel md a id fr l' arts' c cut om,
+  guard_sound g = true ->
+  handoff_fs g f base view l parent sel md a id fr = (l', arts', Ok (c, cut, om)) ->
+  l' = l ++ [created_frame c (f_e0 fr); handoff_frame c (f_e1 fr) parent cut om (Some a) md]
+  /\ exists p content, resolve f base id = WAt p (File content) /\ lookup f p = Some (File content)
+                       /\ read_back f base id = Some content.
+Proof. exact handoff_fs_summary_resolves. Qed.
+Print Assumptions c10_handoff_caller_artifact_resolves.
+
+(* ... at the guard read from the source on this run (T1: tools/gen/handoff_guard.py -> Gen/HandoffGuard.v) *)
+Theorem c10_handoff_caller_artifact_resolves_as_built : forall f base view l parent sel md a id fr l' arts' c cut om,
+  handoff_fs gen_art_guard f base view l parent sel md a id fr = (l', arts', Ok (c, cut, om)) ->
+  l' = l ++ [created_frame c (f_e0 fr); handoff_frame c (f_e1 fr) parent cut om (Some a) md]
+  /\ exists p content, resolve f base id = WAt p (File content) /\ lookup f p = Some (File content)
+                       /\ read_back f base id = Some content.
+Proof. exact (fun f base view l parent sel md a id fr l' arts' c cut om => handoff_fs_summary_resolves gen_art_guard f base view l parent sel md a id fr l' arts' c cut om eq_refl). Qed.
+Print Assumptions c10_handoff_caller_artifact_resolves_as_built.
+
+(* a refused id leaves no child thread, no frame, nothing stored - whatever the guard *)
+Theorem c10_handoff_refused_artifact_writes_nothing : forall g f base view l parent sel md a id fr,
+  guard_eval g f base id = false ->
+  handoff_fs g f base view l parent sel md a id fr = (l, [], Err ENoArtifact).
+Proof. exact handoff_fs_refused. Qed.
+Print Assumptions c10_handoff_refused_artifact_writes_nothing.
+
+(* `exists()` in place of `is_file()` (seeded change C10-10): an id that resolves to a DIRECTORY - "" joins to the
+   blobs directory itself - is accepted, the lineage frame records it, nothing can be read back *)
+Theorem c10_handoff_exists_guard_refuted :
+  exists g f base view l parent sel a id fr l' arts' r,
+    handoff_fs g f base view l parent sel false a id fr = (l', arts', Ok r)
+    /\ read_back f base id = None
+    /\ exists c e cut om, In (handoff_frame c e parent cut om (Some a) false) l'.
+Proof. exact handoff_exists_guard_refuted. Qed.
+Print Assumptions c10_handoff_exists_guard_refuted.
+
+(* the guard as built does not confine the id to the blobs directory: "../x" passes when <artifacts>/x is a regular
+   file (finding S30; replayed on the real store) - the stronger statement "accepted => a blob OF THE STORE" is false *)
+Theorem c10_artifact_guard_confined_to_store_refuted :
+  exists f base id p c,
+    guard_eval GNonEmptyIsFile f base id = true /\ resolve f base id = WAt p (File c) /\ under_base base p = false.
+Proof. exact as_built_guard_escapes_store. Qed.
+Print Assumptions c10_artifact_guard_confined_to_store_refuted.
+
+Example c10_demo_artifact_guard :
+  guard_sound GNonEmptyIsFile = true
+  /\ w_handoff GNonEmptyIsFile [107]
+     = (demo_log ++ [created_frame 1 20; handoff_frame 1 21 0 6 (Some 15) (Some 40) false], [(40, [])], Ok (1, 6, Some 15))
+  /\ w_handoff GNonEmptyIsFile [] = (demo_log, [], Err ENoArtifact).
+Proof. exact art_hypotheses_satisfiable. Qed.
 
 (* ---- non-vacuity ---- *)
 (* the HTTP layer (server.rs): the response is 201 exactly for the calls the store serves; every rejected call
